@@ -19,6 +19,7 @@ From RV Require Import Base.Prelude Base.IdSet M.Util M.UtilProofs M.Proto M.Mem
   M.RaftLogProofsSlice M.RaftLogProofsHistory
   M.RaftProofsC15 M.RaftProofsC09 M.RaftProofsC08 M.RaftProofsC13 M.RaftProofsC07
   M.RaftProofsRepInv.
+From RV Require M.RaftProofsC16.
 From RecordUpdate Require Import RecordSet.
 Import RecordSetNotations.
 
@@ -855,4 +856,203 @@ Proof.
   pose proof (wrun_pres true _ _ R1 A) as HI.
   destruct (wrun_crel true _ _ R2 HI) as (C1 & _ & C3). split; [exact C1|].
   intros i e Hi Hg Hb. rewrite (C3 i Hi Hb). exact Hg.
+Qed.
+
+(* a snapshot install, exactly: the log becomes the empty log based at the snapshot, which
+   is at or above the old commit index (entries leave the log only by being covered) *)
+Theorem restore_installs rw r s r' :
+  restore r s = Ok (r', true) -> s_index s < u64_max -> LI rw r ->
+  abs (r_log r') = mkLL (s_index s) (Some (s_term s)) []
+  /\ committed (r_log r) <= s_index s /\ s_index s <= committed (r_log r').
+Proof.
+  unfold restore. intros H Hb HI.
+  destruct (s_index s <? committed (r_log r)); [discriminate|].
+  destruct (negb (role_eqb (r_state r) Follower)). { inv_bind H. discriminate. }
+  match type of H with (if ?c then _ else _) = _ => destruct c end; [discriminate|].
+  inv_bind H.
+  match type of H with (if ?c then _ else _) = _ => destruct c end. { inv_bind H. discriminate. }
+  inv_bind H.
+  destruct (log_restore_pres rw _ _ _ Hx0 HI Hb) as (A & _).
+  destruct (log_restore_crel rw _ _ _ Hx0 HI Hb) as (_ & Habs & Hc & Hc').
+  destruct (ConfChange.restore empty_tracker (s_cs s)) as [[c' ids']|e]; [|discriminate].
+  inv_bind H. destruct x1 as [r1 new_cs].
+  match type of Hx1 with post_conf_change ?ra = _ => assert (Ha : LI rw ra) by exact A end.
+  destruct (post_conf_change_pres rw _ _ _ Hx1 Ha) as [_ S].
+  destruct (post_conf_change_rcrel rw _ _ _ Hx1 Ha) as (C & _).
+  match type of H with (if ?c then _ else _) = _ => destruct c end; [discriminate|].
+  destruct (get_pr r1 (r_id r1)) as [pr|]; [|discriminate].
+  destruct (next_idx pr =? 0); [discriminate|]. inversion H; subst. cbn in *.
+  rewrite (same_su_abs _ _ S). splits; [exact Habs|exact Hc|lia].
+Qed.
+
+(* ================================================================== *)
+(* Part 3. A leader only appends                                        *)
+(* ================================================================== *)
+Lemma rgrows_eq r r' : r_log r' = r_log r -> grows (r_log r) (r_log r').
+Proof. intros ->. apply grows_refl. Qed.
+
+Lemma same_su_grows l l' : same_su l l' -> grows l l'.
+Proof. intros S. apply grows_abs_eq. apply same_su_abs. exact S. Qed.
+
+Lemma handle_append_response_su rw r m r' :
+  handle_append_response r m = Ok r' -> LI rw r -> same_su (r_log r) (r_log r').
+Proof.
+  intros H HI.
+  unfold handle_append_response in H. inv_bind H. clear Hx.
+  destruct (get_pr r (m_from m)) as [pr|]; [|inversion H; subst; apply same_su_refl].
+  destruct (m_reject m).
+  { destruct (maybe_decr_to _ _ _ _) as [pr1 dec]. destruct dec.
+    - apply send_append_to_log in H. rewrite H. apply same_su_refl.
+    - inversion H; subst. apply same_su_refl. }
+  destruct (maybe_update _ _) as [pr1 upd]. destruct upd; cbn [negb] in H.
+  2:{ inversion H; subst. apply same_su_refl. }
+  inv_bind H. clear Hx. inv_bind H. destruct x1 as [r1 cmt].
+  match type of Hx with Raft.maybe_commit ?ra = _ => assert (Ha : LI rw ra) by exact HI end.
+  destruct (maybe_commit_pres rw _ _ _ Hx Ha) as [_ C]. cbn in C. inv_bind H. inv_bind H.
+  assert (E2 : r_log x1 = r_log r1).
+  { destruct cmt.
+    - destruct (should_bcast_commit r1); [eapply bcast_append_log; eassumption|].
+      inversion Hx0; reflexivity.
+    - destruct (is_paused _); [eapply send_append_to_log; eassumption|].
+      inversion Hx0; reflexivity. }
+  apply send_append_aggressively_log in Hx1.
+  assert (E4 : r_log r' = r_log x2).
+  { destruct (r_lead_transferee x2); [|inversion H; reflexivity].
+    destruct (n =? m_from m); [|inversion H; reflexivity].
+    destruct (get_pr x2 (m_from m)); [|discriminate].
+    destruct (matched p =? last_index (r_log x2)); [eapply send_timeout_now_log; exact H|].
+    inversion H; reflexivity. }
+  rewrite E4, Hx1, E2. exact C.
+Qed.
+
+(* whatever a node in the leader role is stepped with in step_leader, its log only grows
+   (a demotion by MsgCheckQuorum leaves the log alone) *)
+Lemma step_leader_grows rw r m r' c :
+  step_leader r m = Ok (r', c) -> msg_wf (last_index (r_log r)) m -> LI rw r ->
+  grows (r_log r) (r_log r').
+Proof.
+  unfold step_leader. intros H (_ & Wp & _ & _) HI.
+  destruct (m_type m =? MsgBeat).
+  { inv_bind H. inversion H; subst. apply rgrows_eq. eapply bcast_heartbeat_log; exact Hx. }
+  destruct (m_type m =? MsgCheckQuorum).
+  { destruct (quorum_recently_active (r_prs r) (r_id r)) as [prs' active] eqn:Eq.
+    destruct active; cbn [negb] in H.
+    - inversion H; subst. apply grows_refl.
+    - inv_bind H. inversion H; subst. rewrite (become_follower_log _ _ _ _ Hx). cbn.
+      apply grows_abs_eq. apply abs_ext; reflexivity. }
+  destruct (m_type m =? MsgPropose) eqn:Ep.
+  { apply N.eqb_eq in Ep. specialize (Wp Ep).
+    destruct (m_entries m) as [|e0 es] eqn:Ee; [discriminate|]. rewrite <- Ee in *.
+    destruct (get_pr r (r_id r)); [|inversion H; subst; apply grows_refl].
+    destruct (r_lead_transferee r); [inversion H; subst; apply grows_refl|].
+    dfilter H. pose proof (filter_conf_changes_log _ _ _ _ _ _ _ F) as El.
+    pose proof (filter_length _ _ _ _ _ _ _ F) as Hlen.
+    assert (H1 : LI rw a) by (eapply LI_same; eassumption).
+    destruct c0; cbn [negb] in H; [|inversion H; subst; apply rgrows_eq; exact El].
+    inv_bind H. destruct x as [r2 appended].
+    destruct (append_entry_rel rw _ _ _ _ Hx H1) as (_ & G).
+    { unfold room. rewrite El, Hlen. exact Wp. }
+    rewrite El in G.
+    destruct appended; cbn [negb] in H.
+    - inv_bind H. inversion H; subst. apply bcast_append_log in Hx0. rewrite Hx0. exact G.
+    - inversion H; subst. exact G. }
+  destruct (m_type m =? MsgReadIndex).
+  { inv_bind H. destruct (negb x); [inversion H; subst; apply grows_refl|].
+    assert (Hans : forall ra c',
+      (x0 <- handle_ready_read_index r m (committed (r_log r)) ;;
+       let '(r1, om) := x0 in
+       r2 <- match om with Some mm => send r1 mm | None => Ok r1 end ;; Ok (r2, E_OK)) = Ok (ra, c') ->
+      grows (r_log r) (r_log ra)).
+    { intros ra c' Ha. inv_bind Ha. destruct x0 as [r1 om]. inv_bind Ha. inversion Ha; subst.
+      apply handle_ready_read_index_log in Hx0. apply rgrows_eq.
+      destruct om; [apply send_log in Hx1|inversion Hx1; subst]; congruence. }
+    match type of H with (if ?c then _ else _) = _ => destruct c end; [eapply Hans; exact H|].
+    destruct (ro_option (r_read_only r) =? 0); [|eapply Hans; exact H].
+    inv_bind H. inv_bind H. inv_bind H. inversion H; subst.
+    apply bcast_heartbeat_with_ctx_log in Hx2. apply rgrows_eq. exact Hx2. }
+  destruct (m_type m =? MsgAppendResponse).
+  { inv_bind H. inversion H; subst. apply same_su_grows. eapply handle_append_response_su; eassumption. }
+  destruct (m_type m =? MsgHeartbeatResponse).
+  { inv_bind H. inversion H; subst. apply rgrows_eq. eapply handle_heartbeat_response_log; eassumption. }
+  destruct (m_type m =? MsgSnapStatus).
+  { inv_bind H. inversion H; subst. apply rgrows_eq. eapply handle_snapshot_status_log; eassumption. }
+  destruct (m_type m =? MsgUnreachable).
+  { inv_bind H. inversion H; subst. apply rgrows_eq. eapply handle_unreachable_log; eassumption. }
+  destruct (m_type m =? MsgTransferLeader).
+  { inv_bind H. inversion H; subst. apply rgrows_eq. eapply handle_transfer_leader_log; eassumption. }
+  inversion H; subst. apply grows_refl.
+Qed.
+
+Lemma step_body_leader_grows rw r m r' c :
+  r_state r = Leader -> RaftProofsC08.step_body r m = Ok (r', c) ->
+  msg_wf (last_index (r_log r)) m -> LI rw r -> grows (r_log r) (r_log r').
+Proof.
+  unfold RaftProofsC08.step_body. intros Hs H W HI.
+  assert (Hl : is_leader r = true) by (unfold is_leader; rewrite Hs; reflexivity).
+  destruct (m_type m =? MsgHup).
+  { inv_bind H. inversion H; subst. apply hup_spec in Hx.
+    destruct Hx as [[_ ->]|[(C & _)|[(C & _)|(C & _)]]]; [apply grows_refl|congruence|congruence|congruence]. }
+  match type of H with (if ?c then _ else _) = _ => destruct c end.
+  { inv_bind H. inv_bind H.
+    match type of H with (if ?c then _ else _) = _ => destruct c end.
+    - inv_bind H. apply send_log in Hx1.
+      destruct (m_type m =? MsgRequestVote); inversion H; subst; apply rgrows_eq; exact Hx1.
+    - inv_bind H. inv_bind H. inv_bind H. inversion H; subst.
+      destruct (send_exact _ _ _ Hx2) as (m' & Em & _). apply send_log in Hx2.
+      apply maybe_commit_by_vote_spec in Hx3.
+      destruct Hx3 as [-> |(l' & b & _ & _ & _ & Hnl & _)]; [apply rgrows_eq; exact Hx2|].
+      exfalso. rewrite Em in Hnl. unfold is_leader in *. cbn in Hnl. congruence. }
+  unfold step_role in H. rewrite Hs in H. eapply step_leader_grows; eassumption.
+Qed.
+
+(* C05 (1), step: leader of the same term before and after => the log only grew *)
+Theorem step_leader_append_only rw r m r' c :
+  step r m = Ok (r', c) -> r_state r = Leader -> r_state r' = Leader -> r_term r' = r_term r ->
+  msg_wf (last_index (r_log r)) m -> LI rw r -> grows (r_log r) (r_log r').
+Proof.
+  intros H Hs Hs' Ht W HI. rewrite step_decompose in H. inv_bind H. apply step_prologue_spec in Hx.
+  destruct x as [[r1 c1]|r1].
+  - inversion H; subst. apply rgrows_eq. apply lf_log. apply Hx.
+  - destruct Hx as [-> |(Hlt & l & Hbf)]; [eapply step_body_leader_grows; eassumption|].
+    exfalso. apply become_follower_fields in Hbf. destruct Hbf as (_ & _ & _ & _ & _ & _ & Ht1 & _).
+    assert (Hb : RaftProofsC16.step_body r1 m = Ok (r', c)) by exact H.
+    apply RaftProofsC16.step_body_term in Hb. destruct Hb as [_ [Hb|[Hb _]]]; lia.
+Qed.
+
+Theorem tick_leader_append_only rw r r' b :
+  tick r = Ok (r', b) -> r_state r = Leader -> LI rw r -> grows (r_log r) (r_log r').
+Proof.
+  unfold tick. intros H Hs HI. rewrite Hs in H. unfold tick_heartbeat in H.
+  inv_bind H. destruct x as [r1 hr].
+  (* a local message (term 0) stepped into a leader goes to step_leader *)
+  assert (Hloc : forall ra mm x, r_state ra = Leader -> m_term mm = 0 -> (m_type mm =? MsgHup) = false ->
+            (m_type mm =? MsgRequestVote) || (m_type mm =? MsgRequestPreVote) = false ->
+            msg_wf (last_index (r_log ra)) mm -> LI rw ra -> step ra mm = Ok x ->
+            grows (r_log ra) (r_log (fst x)) /\ LI rw (fst x)).
+  { intros ra mm [rb cb] Hsa Hz Hh Hv Wm Ha Hst. cbn [fst].
+    split; [|eapply step_pres; eassumption].
+    rewrite (step_same_term ra mm (or_introl Hz) Hh Hv) in Hst.
+    unfold step_role in Hst. rewrite Hsa in Hst. eapply step_leader_grows; eassumption. }
+  assert (H1 : grows (r_log r) (r_log r1) /\ LI rw r1).
+  { match type of Hx with (if ?c then _ else _) = _ => destruct c end;
+      [|inversion Hx; subst; split; [apply grows_refl|exact HI]].
+    inv_bind Hx. destruct x as [rb hb]. inversion Hx; subst.
+    assert (Hb : grows (r_log r) (r_log rb) /\ LI rw rb).
+    { destruct (r_check_quorum _); [|inversion Hx0; subst; split; [apply grows_refl|exact HI]].
+      inv_bind Hx0. inversion Hx0; subst.
+      match type of Hx1 with step ?ra ?mm = _ =>
+        destruct (Hloc ra mm x Hs eq_refl eq_refl eq_refl) as [A B];
+          [apply msg_wf_plain; cbn; [reflexivity|discriminate|discriminate|discriminate]|exact HI|exact Hx1|] end.
+      split; [exact A|exact B]. }
+    match goal with |- grows _ (r_log (if ?c then _ else _)) /\ _ => destruct c end; exact Hb. }
+  destruct H1 as [G1 H1].
+  destruct (negb (is_leader r1)) eqn:El; [inversion H; subst; exact G1|].
+  match type of H with (if ?c then _ else _) = _ => destruct c end; [|inversion H; subst; exact G1].
+  inv_bind H. inversion H; subst.
+  assert (Hs1 : r_state r1 = Leader).
+  { apply negb_false_iff in El. unfold is_leader in El. destruct (r_state r1); try discriminate. reflexivity. }
+  match type of Hx0 with step ?ra ?mm = _ =>
+    destruct (Hloc ra mm x Hs1 eq_refl eq_refl eq_refl) as [A _];
+      [apply msg_wf_plain; cbn; [reflexivity|discriminate|discriminate|discriminate]|exact H1|exact Hx0|] end.
+  eapply grows_trans; [exact G1|exact A].
 Qed.
